@@ -619,6 +619,15 @@ func partC(r *ev.Run, stride int) {
 	var nRT, nMal, nAgree, nScript int64
 	// ---- C1 over the byte codecs and urlquery
 	byteVals := append(append([]val{}, poolB...), poolS...)
+	// every single byte as a one-byte string, alone and between two letters (what a codec escapes, and what it
+	// leaves alone, is decided per byte: a fast path for "nothing to escape" is a set of bytes), and a few texts
+	// made of bytes that only some encoders leave alone
+	for b := 0; b < 256; b++ {
+		byteVals = append(byteVals, vs(string([]byte{byte(b)})), vs("a"+string([]byte{byte(b)})+"z"))
+	}
+	for _, t := range []string{"1+1", "C++", "+49.170.1234567", "a b+c", "~-._", "%41", "a%2Bb", "a=b&c=d", "x;y", "*!'()"} {
+		byteVals = append(byteVals, vs(t))
+	}
 	for _, codec := range []string{"base64", "base32", "hex", "gzip", "urlquery"} {
 		for _, x := range byteVals {
 			o := observeObject(codec, x)
